@@ -230,6 +230,13 @@ func (k *Conn) ClientClose() {
 	k.cond.Broadcast()
 	k.mu.Unlock()
 }
+
+// ClientClosed reports whether the client side has hung up.
+func (k *Conn) ClientClosed() bool {
+	k.mu.Lock()
+	defer k.mu.Unlock()
+	return k.clientClosed
+}
 func (k *Conn) Closed() bool {
 	k.mu.Lock()
 	defer k.mu.Unlock()
